@@ -67,7 +67,7 @@ func compiled(repo, dir string, seed uint64, tier string) error {
 	out := vl.NewOut(dir)
 	defer out.Close()
 	r := vl.NewRng(seed*7919 + 15)
-	n := 8
+	n := 3 // quick: one small batch whose main files hold every kind of Go type
 	if tier == "thorough" {
 		n = 16
 	}
@@ -89,7 +89,7 @@ func compiled(repo, dir string, seed uint64, tier string) error {
 	// ---- generate
 	units := make([]*cunit, n)
 	for i := 0; i < n; i++ {
-		d := genDoc(r, genCfg{forceGoNS: true, compileSafe: true})
+		d := genDoc(r, genCfg{forceGoNS: true, compileSafe: true, fullKinds: i < 4})
 		for _, f := range d.Files {
 			f.Path = fmt.Sprintf("u%d/%s", i, f.Path)
 		}
